@@ -343,7 +343,7 @@ def run():
     per = ck.pick(10, 25)
     tasks = [("tvf.checks.c15:_batch", dict(seed=ck.seed, start=s, count=min(per, n - s), nmax=nmax), None) for s in range(0, n, per)]
     ks = {}
-    for i, st, val in farm.run(tasks, timeout=1800, progress="C15"):
+    for i, st, val in farm.run(tasks, timeout=ck.pick(240, 1800), progress="C15"):
         if st != "ok":
             ck.inconc(f"batch {i}: {st} {str(val)[:300]}")
             continue
